@@ -103,8 +103,9 @@ def parse_verdict(tup):
     m = re.match(r'<<\s*"VERDICT",\s*(-?\d+),\s*"([^"]*)",\s*(-?\d+)(?:,\s*(-?\d+))?(?:,\s*"([^"]*)")?(?:,\s*(-?\d+))?\s*', tup.replace("\n", " "))
     if not m:
         raise Machinery("unparsable verdict %r" % tup[:200])
-    also = "|".join(x for x in (m.group(5) or "").split("|") if x and x != "ok") or None
-    if also is not None and m.group(6):
+    # secondary (soft) clauses met on the way: "clause" or "clause@event", separated by "|"
+    also = "|".join(x for x in (m.group(5) or "").split("|") if x and x != "ok" and not x.startswith("ok@")) or None
+    if also is not None and m.group(6) and "@" not in also:
         also = also + "@" + m.group(6)      # event at which the (first) secondary clause was met
     return int(m.group(1)), m.group(2), int(m.group(3)), int(m.group(4) or 0), also
 
